@@ -45,6 +45,10 @@ pub enum Mutation {
     /// overwrite the slot after slot `at` with a copy of slot `at` (two byte-identical neighbours:
     /// whatever is position dependent in the first - a jump or call target - is off by one in the second)
     CopyToNext { at: u16 },
+    /// three slots: `ja +1`, a jump of kind `opc_sel` whose target is chosen by class, and a
+    /// byte-identical copy of that jump - the copy is reached (by the `ja`) although the original
+    /// is not, and whatever is position dependent in the jump is off by one in the copy
+    JumpPairEntered { at: u16, opc_sel: u8, class: u8, raw: i16 },
 }
 
 #[derive(Clone, Debug)]
@@ -275,6 +279,20 @@ fn apply(m: &Mutation, bytes: &mut Vec<u8>) {
                 bytes.copy_within(a * 8..a * 8 + 8, (a + 1) * 8);
             }
         }
+        Mutation::JumpPairEntered { at, opc_sel, class, raw } => {
+            let a = at_of(*at);
+            if a + 2 < n {
+                let jumps: Vec<u8> = supported_opcodes().into_iter().filter(|o| is_jump_kind(kind_of(*o).unwrap()) && *o != JA).collect();
+                let opc = jumps[*opc_sel as usize % jumps.len()];
+                let t = target_by_class(*class, n, a + 1, *raw as i64, bytes);
+                let off = (t - (a as i64 + 1) - 1).clamp(i16::MIN as i64, i16::MAX as i64) as i16;
+                let old = ref_decode(&bytes[(a + 1) * 8..(a + 1) * 8 + 8]);
+                let e = ref_encode(opc, old.dst % 10, old.src % 11, off, old.imm);
+                bytes[a * 8..a * 8 + 8].copy_from_slice(&ref_encode(JA, 0, 0, 1, 0));
+                bytes[(a + 1) * 8..(a + 1) * 8 + 8].copy_from_slice(&e);
+                bytes[(a + 2) * 8..(a + 2) * 8 + 8].copy_from_slice(&e);
+            }
+        }
         Mutation::Jump { at, opc_sel, class, raw } => {
             let a = at_of(*at);
             let jumps: Vec<u8> = supported_opcodes().into_iter().filter(|o| is_jump_kind(kind_of(*o).unwrap())).collect();
@@ -308,6 +326,7 @@ pub fn mutation() -> impl Strategy<Value = Mutation> {
         3 => (any::<u16>(), any::<u8>(), any::<i32>()).prop_map(|(at, class, raw)| Mutation::LocalCall { at, class, raw }),
         3 => (any::<u16>(), any::<u8>(), any::<u8>(), any::<i16>()).prop_map(|(at, opc_sel, class, raw)| Mutation::Jump { at, opc_sel, class, raw }),
         2 => any::<u16>().prop_map(|at| Mutation::CopyToNext { at }),
+        1 => (any::<u16>(), any::<u8>(), any::<u8>(), any::<i16>()).prop_map(|(at, opc_sel, class, raw)| Mutation::JumpPairEntered { at, opc_sel, class, raw }),
     ]
 }
 
